@@ -74,8 +74,20 @@ def DRMode.ofTok : String → Option DRMode
   | "ISTIO_MUTUAL" => some .istioMutual
   | _ => none
 
-/-- The services of the `inbound` stream's proxy: 80 HTTP, 8080 TCP, 9090 unnamed (auto). -/
-def inboundSvcPorts : List (Nat × LProto) := [(80, .http), (8080, .tcp), (9090, .auto)]
+/-- The services of the `inbound` stream's proxy: 80 HTTP, 8080 TCP, 9090 unnamed (auto), and service
+    port 81 with target port 8081 (HTTP). -/
+def inboundSvcPorts : List SvcPort :=
+  [ { port := 80, target := 80, proto := .http }, { port := 8080, target := 8080, proto := .tcp },
+    { port := 9090, target := 9090, proto := .auto }, { port := 81, target := 8081, proto := .http } ]
+
+/-- `<port>:<http|tcp>:<0|1>,...`: the ingress listeners of a Sidecar (no targetPort in that API). -/
+def parseIngress (t : String) : List SvcPort :=
+  (decList t).filterMap fun e =>
+    match e.splitOn ":" with
+    | [p, proto, tls] =>
+      let n := p.toNat?.getD 0
+      some { port := n, target := n, proto := if proto == "http" then .http else .tcp, userTLS := tls == "1" }
+    | _ => none
 
 def LChain.show (c : LChain) : String :=
   let dst := match c.dst with
@@ -91,8 +103,8 @@ def LChain.show (c : LChain) : String :=
     | .mtls => "2"
   s!"{dst}:{boolTok c.chain.transportTLS}.{alpn}.{boolTok c.chain.http}.{sock}"
 
-def showInbound (root : String) (pas : List PA) (w : Workload) : String :=
-  joinOrDash (sortStrings ((inboundChains root pas w inboundSvcPorts).map LChain.show))
+def showInbound (root : String) (pas : List PA) (w : Workload) (svc : List SvcPort) : String :=
+  joinOrDash (sortStrings ((inboundChains root pas w svc).map LChain.show))
 
 def showKeys (root : String) (k : AKeys) : String :=
   encList (sortStrings ((if k.static then [s!"{root}/istio_converted_static_strict"] else []) ++
@@ -112,9 +124,12 @@ def step (s : DState) (toks : List String) : DState × String :=
   | ["q", ns, labels, svc, ports] =>
     let w : Workload := { ns := dec ns, labels := parseLabels labels, svcNs := (decList svc).take 1 }
     (s, showQuery s.root s.pas w (parsePortList ports))
-  | ["chk", ns, labels, port, epTLS, dr] =>
+  | ["chk", ns, labels, port, epTLS, dr, clientNs, imported, _wp] =>
+    -- the client side as production runs it: on the client proxy's filtered view
     let w : Workload := { ns := dec ns, labels := parseLabels labels }
-    (s, boolTok (checkMtlsEnabled s.root s.pas (DRMode.ofTok dr) (tokBool epTLS) w (port.toNat?.getD 0)))
+    let view := sidecarView s.root s.pas (dec clientNs) (decList imported)
+    let r := checkMtlsEnabledIn view (DRMode.ofTok dr) (tokBool epTLS) w (port.toNat?.getD 0)
+    (s, s!"{boolTok r} BE={(bestEffortServiceMode view w.ns).tok} NS={(view.namespaceMode w.ns).tok}")
   | ["cv", i, j, k] =>
     -- direct call of convertPeerAuthentication on policies picked by index
     match s.pas[i.toNat?.getD 0]? with
@@ -135,7 +150,10 @@ def step (s : DState) (toks : List String) : DState × String :=
         | some p => s!"{p.ns}/{p.name}")
   | ["il", ns, labels] =>
     let w : Workload := { ns := dec ns, labels := parseLabels labels }
-    (s, showInbound s.root s.pas w)
+    (s, showInbound s.root s.pas w inboundSvcPorts)
+  | ["ils", ns, labels, ingress] =>
+    let w : Workload := { ns := dec ns, labels := parseLabels labels }
+    (s, showInbound s.root s.pas w (parseIngress ingress))
   | ["aq", ns, labels, ports] =>
     let w : Workload := { ns := dec ns, labels := parseLabels labels }
     (s, showAmbientG s.fx s.root s.pas w (parsePortList ports))
